@@ -30,6 +30,10 @@ type machine struct {
 
 	prevHead, prevTail, prevCap int
 	nearLimit                   bool
+
+	// other buffers of the same process, created, written, read and closed while the buffer
+	// under test lives: what one buffer holds is nobody else's business
+	neighbours []*packetio.Buffer
 }
 
 func hardLimitBuild() bool { return os.Getenv("VERIF_HARDLIMIT") == "1" }
@@ -351,8 +355,45 @@ func genLimitSize(t *rapid.T) int {
 	}
 }
 
+func (mc *machine) neighbour() {
+	t := mc.t
+	mc.c.Label("other-buffers-alive")
+	switch k := rapid.IntRange(0, 3).Draw(t, "nbop"); {
+	case k < 2 || len(mc.neighbours) == 0:
+		nb := packetio.NewBuffer()
+		for i, n := 0, rapid.IntRange(1, 3).Draw(t, "nbwrites"); i < n; i++ {
+			junk := make([]byte, rapid.IntRange(1, 1500).Draw(t, "nblen"))
+			for j := range junk {
+				junk[j] = 0xEE
+			}
+			_, _ = nb.Write(junk)
+		}
+		mc.neighbours = append(mc.neighbours, nb)
+		t.Logf("another buffer is created and written")
+	case k == 2:
+		nb := mc.neighbours[rapid.IntRange(0, len(mc.neighbours)-1).Draw(t, "nbwhich")]
+		_ = nb.Close()
+		t.Logf("another buffer is closed with packets left")
+	default:
+		nb := mc.neighbours[rapid.IntRange(0, len(mc.neighbours)-1).Draw(t, "nbwhich")]
+		if nb.Count() > 0 {
+			got := make([]byte, 2000)
+			if n, err := nb.Read(got); err == nil {
+				for j := 0; j < n; j++ {
+					if got[j] != 0xEE {
+						t.Fatalf("C06: a packet read from another buffer of the process contains %#x at %d, it was written as %d bytes of 0xEE (buffers share storage)", got[j], j, n)
+					}
+				}
+			}
+		}
+	}
+}
+
 func (mc *machine) step() {
 	t, m := mc.t, mc.m
+	if rapid.IntRange(0, 11).Draw(t, "neighbour") == 0 {
+		mc.neighbour()
+	}
 	k := rapid.IntRange(0, 99).Draw(t, "op")
 	canRead := len(m.Fifo) > 0 || m.Closed
 	switch {
